@@ -1,5 +1,7 @@
 import JinjaV.Model.Sx
 import JinjaV.Model.Path
+import JinjaV.Model.PathProg
+import JinjaV.Gen.SplitPath
 namespace JinjaV.Wire.Path
 open JinjaV JinjaV.Path
 
@@ -61,8 +63,28 @@ def handlePrefix : List Sx → Sx
     | _, _, _ => Sx.bad
   | _ => Sx.bad
 
+/-- `(path-split-gen sep altsep name)`: the program READ from loaders.py (Gen/SplitPath.lean) run by the
+    interpreter; `(oom)` when the program applies `str → str` functions (they are uninterpreted in the model) -/
+def handleSplitGen : List Sx → Sx
+  | [sep, alt, name] =>
+    match decChar? sep, decChar? alt, name.toStr? with
+    | some (some sep), some alt, some n =>
+      if !Gen.SplitPath.prog.syms.isEmpty then Sx.oom
+      else match runProg semId Gen.SplitPath.prog sep alt n.toList with
+        | some ps => Sx.ok (encStrs ps)
+        | none => Sx.err "notfound"
+    | _, _, _ => Sx.bad
+  | _ => Sx.bad
+
+/-- `(path-prog)` → `(ok (safe functions-in-the-stored-expression all-functions))` for the program read from the source -/
+def handleProg : List Sx → Sx
+  | _ => Sx.ok (.list [.atom (if safeProg Gen.SplitPath.prog then "true" else "false"),
+      .list (Gen.SplitPath.prog.store.map fun x => .str x.fn),
+      .list (Gen.SplitPath.prog.syms.map fun x => .str x.fn)])
+
 /-- request names served by this module (collected into `JinjaV.Wire.All` by tools/gen_wire_all.py) -/
 def handlers : List (String × (List Sx → Sx)) :=
-  [("path-split", handleSplit), ("path-join", handleJoin), ("path-choice", handleChoice), ("path-prefix", handlePrefix)]
+  [("path-split", handleSplit), ("path-join", handleJoin), ("path-choice", handleChoice), ("path-prefix", handlePrefix),
+   ("path-split-gen", handleSplitGen), ("path-prog", handleProg)]
 
 end JinjaV.Wire.Path
